@@ -584,18 +584,18 @@ VSAN = {"quick": ["vsan"], "thorough": ["vsan"]}
 BOTH = {"quick": ["prod", "vsan"], "thorough": ["prod", "vsan"]}
 
 TESTS = [
-    Test("sign", sign_case, run_sign, quick=3000, thorough=120000, cfgs=FULL,
+    Test("sign", sign_case, run_sign, quick=3000, thorough=120000, cfgs=FULL, max_workers=6,
          must_cover=["entry:sign32", "entry:custom_null", "entry:custom_fpnull", "entry:custom_fp340", "entry:custom_pycb", "aux:none", "aux:zero", "aux:set",
                      "pk_even", "pk_odd", "len=0", "len<=300", "len<=1000", "len>1000"]),
     Test("sign_vsan", sign_case, run_sign, quick=160, thorough=6000, cfgs=VSAN, must_cover=["aux:none", "len>1000"]),
-    Test("lengths", lengths_enum, run_length, kind="enum", cfgs=BOTH, max_workers=4, must_cover=["len_enum"]),
-    Test("verify", verify_case, run_verify, quick=8000, thorough=250000, cfgs=FULL,
+    Test("lengths", lengths_enum, run_length, kind="enum", cfgs=BOTH, max_workers=6, must_cover=["len_enum"]),
+    Test("verify", verify_case, run_verify, quick=8000, thorough=250000, cfgs=FULL, max_workers=12,
          must_cover=["accept", "reject", "r>=p", "r_offcurve", "s>=n", "long_msg", "mut:honest", "mut:odd_y_twin", "mut:R_inf", "mut:bitflip_sig",
                      "mut:msg_tail", "mut:msg_trunc", "mut:other_key", "mut:s_neg", "pk_parse_reject"]),
     Test("verify_vsan", verify_case, run_verify, quick=400, thorough=15000, cfgs=VSAN, must_cover=["accept", "reject", "s>=n"]),
     Test("bitflips", flips_case, run_flips, quick=9, thorough=400, cfgs=BOTH, must_cover=["all_512_flips"]),
-    Test("xonly_boundary", xonly_case, run_xonly, quick=1000, thorough=40000, cfgs=FULL,
+    Test("xonly_boundary", xonly_case, run_xonly, quick=1000, thorough=40000, cfgs=FULL, max_workers=3,
          must_cover=["x>=p", "x_on_curve", "x_off_curve", "reject"]),
-    Test("small_group", small_case, run_small, quick=1500, thorough=60000, cfgs=SMALL,
+    Test("small_group", small_case, run_small, quick=1500, thorough=60000, cfgs=SMALL, max_workers=4,
          must_cover=["honest_ok", "s_plus_k_order_rejected", "negated_s_rejected", "order=13", "order=199"]),
 ]
